@@ -324,6 +324,22 @@ func c13Readable(b *node.Browser) string {
 	return ""
 }
 
+// c13Fanouts: a prefix followed by 1..17 groups of two alternatives (flat, with a segment between
+// the groups, nested, and with three alternatives to 11 groups)
+func c13Fanouts() []string {
+	var out []string
+	for n := 1; n <= 17; n++ {
+		out = append(out, "d"+strings.Repeat("(x;y)", n))
+		out = append(out, "d"+strings.Repeat("(x;y)/z", n))
+		out = append(out, "(a;n)"+strings.Repeat("(x;y)", n))
+		out = append(out, "d"+strings.Repeat("(x;y", n)+strings.Repeat(")", n))
+		if n <= 11 {
+			out = append(out, "d"+strings.Repeat("(x;y;z)", n))
+		}
+	}
+	return out
+}
+
 func (p *c13) sizes(tier string) map[string]int {
 	return map[string]int{
 		"json-kind": len(c13JSONDocs()),
@@ -333,6 +349,7 @@ func (p *c13) sizes(tier string) map[string]int {
 		"query":     len(c13Queries()),
 		"xpath":     len(c13XPaths(c13XLen(tier))),
 		"setvalue":  len(c13SetValueCases()),
+		"fanout":    len(c13Fanouts()),
 	}
 }
 
@@ -564,6 +581,38 @@ func (p *c13) Run(raw json.RawMessage) eng.Result {
 								nodeutil.WriteJSON(n.Event)
 							}
 						})
+						return err
+					}
+					_, err = nodeutil.WriteJSON(s)
+					return err
+				})
+			}
+		}
+	case kind == "fanout":
+		// groups that multiply: the paths an expression stands for grow with the power of the number
+		// of groups. The library may refuse such an expression; it must not build a structure out of
+		// all proportion to the request (here: 10^4 times the length of the expression)
+		fs := c13Fanouts()
+		for i := c.From; i < c.To && i < len(fs); i++ {
+			f := fs[i]
+			guard("fanout", i, fmt.Sprintf("%q", f), func(b *node.Browser) error {
+				pe, err := node.ParsePathExpression(f)
+				if err != nil || pe == nil {
+					return err
+				}
+				if n := len(pe.String()); n > 10000*len(f) {
+					report("fanout", "structure-out-of-proportion", fmt.Sprintf("expression of %d bytes stands for %d bytes of paths", len(f), n), i)
+				}
+				return nil
+			})
+			for _, param := range []string{"fields", "fc.xfields", "fc.range"} {
+				guard("fanout", i, fmt.Sprintf("%s=%q", param, f), func(b *node.Browser) error {
+					q := param + "=" + f
+					if param == "fc.range" {
+						q += "!1-2"
+					}
+					s, err := b.Root().Find("c?" + q)
+					if err != nil || s == nil {
 						return err
 					}
 					_, err = nodeutil.WriteJSON(s)
